@@ -221,6 +221,8 @@ def invert_pl_function(x: np.ndarray, y: np.ndarray, t: np.ndarray) -> List[np.n
         # Apply linear interpolation between x[j] and x[j+1]
         la = (t[t_ind] - y[j]) / (y[j + 1] - y[j])
         z = (1 - la) * x[j] + la * x[j + 1]
+        # Rounding can push the convex combination an ulp outside of its segment.
+        z = min(max(z, x[j]), x[j + 1])
         s[t_ind].append(z)
 
     # Deal with cases where we don't have solutions
